@@ -876,6 +876,229 @@ fn safe_shape(tpls: &[TplS]) -> (String, Option<String>) {
     (format!("died {st}"), Some(format!("the engine did not return while this chain was registered / rendered (worker {st})")))
 }
 
+// ---------------------------------------------------------------- fixed families (literal sources)
+//
+// Chains the summary generator cannot express (they need a counter, a loop or a character of the
+// source text); every expected text is computed here from the parameters of the family.
+
+#[derive(Clone, Debug, serde::Serialize, serde::Deserialize)]
+struct Fixed {
+    label: String,
+    /// (name, source), registered in one batch in this order and in the reverse order
+    tpls: Vec<(String, String)>,
+    /// the context, as a JSON object
+    context: serde_json::Value,
+    /// (template, block or "" for a whole render, expected answer)
+    calls: Vec<(String, String, String)>,
+}
+
+fn fixed_family() -> Vec<Fixed> {
+    let mut v = Vec::new();
+    // (a) the same block active twice in one render: `a` is defined at the top level of the root
+    // and again, nested in `c`, in the leaf; the leaf's definition calls super() while a counter is
+    // below k, so the root's `a` runs b -> c -> a again, and the inner super() must read the inner
+    // activation's level
+    fn reentrant(i: u32, k: u32) -> String {
+        if i < k { format!("a{i}[<{}>]", reentrant(i + 1, k)) } else { format!("a{i}") }
+    }
+    for k in [1u32, 2, 3, 5] {
+        for wrap in [false, true] {
+            let (o, c) = if wrap { ("{% filter upper %}", "{% endfilter %}") } else { ("", "") };
+            let tpls = vec![
+                ("base".to_string(), "{% block a %}[{% block b %}b{% endblock %}]{% endblock %}".to_string()),
+                ("mid".to_string(), format!("{{% extends \"base\" %}}{{% block b %}}<{o}{{% block c %}}c{{% endblock %}}{c}>{{% endblock %}}")),
+                (
+                    "leaf".to_string(),
+                    format!("{{% extends \"mid\" %}}{{% block c %}}{{% block a %}}{{% set_global n = n + 1 %}}a{{{{ n }}}}{{% if n < {k} %}}{{{{ super() }}}}{{% endif %}}{{% endblock %}}{{% endblock %}}"),
+                ),
+            ];
+            // the first activation of `a` comes from the root's top level, outside the filter section
+            let plain = reentrant(1, k);
+            let want = if wrap { format!("a1{}", plain[2..].to_uppercase()) } else { plain };
+            v.push(Fixed {
+                label: format!("reentrant-block k={k} filter={wrap}"),
+                tpls,
+                context: serde_json::json!({"n": 0}),
+                calls: vec![
+                    ("leaf".into(), "".into(), format!("ok {want}")),
+                    ("mid".into(), "".into(), format!("ok [<{}>]", if wrap { "C" } else { "c" })),
+                    ("base".into(), "".into(), "ok [b]".into()),
+                ],
+            });
+        }
+    }
+    // (b) super() inside a `for` of a child block; the ancestor's definition contains a nested
+    // block whose (most derived) definition reads the loop variable
+    for labels in [vec![], vec!["a"], vec!["a", "b"], vec!["x", "y", "z"]] {
+        let tpls = vec![
+            ("base".to_string(), "{% block list %}({% block item %}{{ label | default(value=\"none\") }}{% endblock %}){% endblock %}".to_string()),
+            ("leaf".to_string(), "{% extends \"base\" %}{% block list %}{% for label in labels %}{{ super() }}{% endfor %}{% endblock %}".to_string()),
+            ("leaf2".to_string(), "{% extends \"leaf\" %}{% block item %}item-{{ label }}{% endblock %}".to_string()),
+            ("leaf3".to_string(), "{% extends \"leaf2\" %}{% block list %}{% for outer in labels %}<{{ outer }}:{{ super() }}>{% endfor %}{% endblock %}".to_string()),
+        ];
+        let leaf: String = labels.iter().map(|l| format!("({l})")).collect();
+        let leaf2: String = labels.iter().map(|l| format!("(item-{l})")).collect();
+        let leaf3: String = labels.iter().map(|o| format!("<{o}:{leaf2}>")).collect();
+        let mut calls = vec![
+            ("base".to_string(), "".to_string(), "ok (none)".to_string()),
+            ("leaf".into(), "".into(), format!("ok {leaf}")),
+            ("leaf2".into(), "".into(), format!("ok {leaf2}")),
+            ("leaf3".into(), "".into(), format!("ok {leaf3}")),
+            ("leaf".into(), "list".into(), format!("ok {leaf}")),
+            ("leaf2".into(), "list".into(), format!("ok {leaf2}")),
+            ("leaf3".into(), "list".into(), format!("ok {leaf3}")),
+        ];
+        if let Some(last) = labels.last() {
+            // render_block renders the template and keeps the block's last text
+            calls.push(("leaf".into(), "item".into(), format!("ok {last}")));
+            calls.push(("leaf2".into(), "item".into(), format!("ok item-{last}")));
+            calls.push(("leaf3".into(), "item".into(), format!("ok item-{last}")));
+        }
+        v.push(Fixed { label: format!("super-in-loop labels={labels:?}"), tpls, context: serde_json::json!({"labels": labels}), calls });
+    }
+    // (c) white space before `{% extends %}`: every character `char::is_whitespace` accepts must
+    // behave like a plain space (the tag is still "the first tag")
+    for ws in [' ', '\t', '\n', '\r', '\u{0B}', '\u{0C}', '\u{85}', '\u{A0}', '\u{1680}', '\u{2003}', '\u{2028}', '\u{2029}', '\u{202F}', '\u{205F}', '\u{3000}'] {
+        for reps in [1usize, 3] {
+            let lead: String = std::iter::repeat(ws).take(reps).collect();
+            let tpls = vec![
+                ("base".to_string(), "B{% block x %}b{% endblock %}{% block y %}y{% endblock %}".to_string()),
+                ("mid".to_string(), format!("{lead}{{% extends \"base\" %}}{{% block x %}}m{{{{ super() }}}}{{% endblock %}}")),
+                ("leaf".to_string(), format!(" {lead}\n{{% extends \"mid\" %}}{{% block x %}}l{{{{ super() }}}}{{% endblock %}}{{% block y %}}Y{{% endblock %}}")),
+            ];
+            v.push(Fixed {
+                label: format!("space-before-extends U+{:04X} x{reps}", ws as u32),
+                tpls,
+                context: serde_json::json!({}),
+                calls: vec![
+                    ("leaf".into(), "".into(), "ok BlmbY".into()),
+                    ("mid".into(), "".into(), "ok Bmby".into()),
+                    ("leaf".into(), "x".into(), "ok lmb".into()),
+                ],
+            });
+        }
+    }
+    // (d) super() captured by a set block (its text used twice) around an ancestor body with a
+    // nested block, and super() under a condition in the nested block's override
+    for flag in [false, true] {
+        let tpls = vec![
+            ("base".to_string(), "{% block x %}b{% block y %}y{% endblock %}{% endblock %}".to_string()),
+            ("mid".to_string(), "{% extends \"base\" %}{% block x %}{% set s %}{{ super() }}{% endset %}<{{ s }}|{{ s }}>{% endblock %}".to_string()),
+            ("leaf".to_string(), "{% extends \"mid\" %}{% block y %}Y{% if flag %}{{ super() }}{% endif %}{% endblock %}".to_string()),
+        ];
+        let y = if flag { "Yy" } else { "Y" };
+        v.push(Fixed {
+            label: format!("super-in-set-block flag={flag}"),
+            tpls,
+            context: serde_json::json!({"flag": flag}),
+            calls: vec![
+                ("base".into(), "".into(), "ok by".into()),
+                ("mid".into(), "".into(), "ok <by|by>".into()),
+                ("leaf".into(), "".into(), format!("ok <b{y}|b{y}>")),
+                ("leaf".into(), "x".into(), format!("ok <b{y}|b{y}>")),
+                ("leaf".into(), "y".into(), format!("ok {y}")),
+                ("mid".into(), "y".into(), "ok y".into()),
+            ],
+        });
+    }
+    v
+}
+
+/// the answers of the engine to one fixed scenario: one line per (registration order, call)
+fn run_fixed(f: &Fixed) -> Vec<(String, String, String)> {
+    let mut out = Vec::new();
+    let context = Context::from_serialize(&f.context).expect("context object");
+    for rev in [false, true] {
+        let mut list: Vec<(String, String)> = f.tpls.clone();
+        if rev {
+            list.reverse();
+        }
+        let order = if rev { "reverse order" } else { "given order" };
+        let reg = catch(std::panic::AssertUnwindSafe(|| {
+            let mut tera = engine(&[]);
+            let r = tera.add_raw_templates(list.iter().map(|(n, s)| (n.as_str(), s.as_str())).collect::<Vec<_>>());
+            (tera, r.map_err(|e| format!("err {}", err_class(&canon_err(&e)))))
+        }));
+        let tera = match reg {
+            Err(_) => {
+                out.push((format!("register ({order})"), "panic".into(), "ok".into()));
+                continue;
+            }
+            Ok((_, Err(e))) => {
+                out.push((format!("register ({order})"), e, "ok".into()));
+                continue;
+            }
+            Ok((t, Ok(()))) => t,
+        };
+        out.push((format!("register ({order})"), "ok".into(), "ok".into()));
+        for (tpl, block, want) in &f.calls {
+            let got = catch(std::panic::AssertUnwindSafe(|| {
+                if block.is_empty() { tera.render(tpl, &context) } else { tera.render_block(tpl, block, &context) }
+            }));
+            let got = match got {
+                Err(_) => "panic".to_string(),
+                Ok(Ok(s)) => format!("ok {s}"),
+                Ok(Err(e)) => canon_err(&e),
+            };
+            let call = if block.is_empty() { format!("render({tpl:?}) ({order})") } else { format!("render_block({tpl:?}, {block:?}) ({order})") };
+            out.push((call, got, want.clone()));
+        }
+    }
+    out
+}
+
+/// worker: every fixed scenario from `from` on; announces `at <i>` before each, prints one JSON line
+/// `[i, [[call, got, want]…]]` after each
+fn child_fixed(from: usize) {
+    let progress = std::sync::Arc::new(std::sync::atomic::AtomicU64::new(0));
+    start_watchdog(progress.clone(), 20);
+    let t0 = Instant::now();
+    for (i, f) in fixed_family().iter().enumerate().skip(from) {
+        println!("at {i}");
+        let rows = run_fixed(f);
+        progress.store(t0.elapsed().as_millis() as u64, std::sync::atomic::Ordering::Relaxed);
+        println!("row {}", serde_json::json!([i, rows]));
+    }
+}
+
+/// parent side: all fixed scenarios through workers; (index, call, got, want) of every wrong answer;
+/// a scenario during which the worker died or hung counts as a wrong answer
+fn fixed_in_workers(report: &mut Report) -> Vec<(usize, String, String, String)> {
+    let fam = fixed_family();
+    let mut wrong = Vec::new();
+    let mut from = 0usize;
+    while from < fam.len() {
+        let (status, out) = run_child(&["--child".into(), "fixed".into(), from.to_string()], Duration::from_secs(120));
+        let mut at = from;
+        let mut done = from;
+        for line in out.lines() {
+            if let Some(i) = line.strip_prefix("at ") {
+                at = i.trim().parse().unwrap_or(at);
+            } else if let Some(j) = line.strip_prefix("row ") {
+                if let Ok((i, rows)) = serde_json::from_str::<(usize, Vec<(String, String, String)>)>(j) {
+                    done = i + 1;
+                    report.evaluations += 1;
+                    report.count("fixed-family.scenarios");
+                    for (call, got, want) in rows {
+                        report.oracle_checks += 1;
+                        if got != want {
+                            wrong.push((i, call, got, want));
+                        }
+                    }
+                }
+            }
+        }
+        if status == "exit0" && done >= fam.len() {
+            break;
+        }
+        // the worker died in scenario `at`
+        let st = if status.contains("exit status: 3") || status == "timeout" { "no answer within 20 s".to_string() } else { status.clone() };
+        wrong.push((at, "the whole scenario".into(), format!("worker died: {st}"), "an answer".into()));
+        from = at.max(done) + 1;
+    }
+    wrong
+}
+
 // ---------------------------------------------------------------- shrinking
 
 fn shrink(mut tpls: Vec<TplS>, fails: &dyn Fn(&[TplS]) -> bool) -> Vec<TplS> {
@@ -961,6 +1184,8 @@ fn main() {
             child_exhaustive(args[i + 2] == "quick", args[i + 3].parse().unwrap(), args[i + 4].parse().unwrap(), args[i + 5].parse().unwrap(), args.get(i + 6).and_then(|a| a.parse().ok()).unwrap_or(-1));
         } else if args[i + 1] == "shape" {
             child_shape(&args[i + 2]);
+        } else if args[i + 1] == "fixed" {
+            child_fixed(args[i + 2].parse().unwrap());
         }
         return;
     }
@@ -969,6 +1194,24 @@ fn main() {
     if let Some(path) = replay_path() {
         let j: serde_json::Value = serde_json::from_str(&std::fs::read_to_string(&path).expect("replay file")).expect("json");
         let j = if j.get("replay").is_some() { j["replay"].clone() } else { j };
+        if let Some(label) = j.get("fixed").and_then(|l| l.as_str()) {
+            let fam = fixed_family();
+            let i = fam.iter().position(|f| f.label == label).expect("a scenario of this label");
+            for (n, s) in &fam[i].tpls {
+                println!("template {n:?}: {s}");
+            }
+            println!("context: {}", fam[i].context);
+            let (status, out) = run_child(&["--child".into(), "fixed".into(), i.to_string()], Duration::from_secs(60));
+            match out.lines().find_map(|l| l.strip_prefix("row ")).and_then(|l| serde_json::from_str::<(usize, Vec<(String, String, String)>)>(l).ok()) {
+                Some((_, rows)) => {
+                    for (call, got, want) in rows {
+                        println!("{} {call}: engine `{got}` expected `{want}`", if got == want { "   " } else { "BAD" });
+                    }
+                }
+                None => println!("the worker gave no answer ({status})"),
+            }
+            return;
+        }
         let c: Case = serde_json::from_value(j["case"].clone()).expect("case");
         for t in &c.tpls {
             println!("template {:?}: {}", t.name, t.source());
@@ -1220,6 +1463,27 @@ fn main() {
                 "implementation": r.imp, "model_fin": model.get(2 * i), "model_spec": model.get(2 * i + 1),
             }));
         }
+    }
+    // fixed families with literal sources (re-entrant blocks, super() in a loop, white space before
+    // the extends tag)
+    let wrong = fixed_in_workers(&mut report);
+    report.oracle_failures += wrong.len() as u64;
+    let fam = fixed_family();
+    let mut seen = BTreeSet::new();
+    for (i, call, got, want) in wrong.iter() {
+        if !seen.insert(*i) || seen.len() > 4 {
+            continue;
+        }
+        let f = &fam[*i];
+        report.violation(
+            "property",
+            format!("fixed chain `{}`: {call} answered `{got}`, the inheritance rules give `{want}`", f.label),
+            serde_json::json!({
+                "fixed": f.label, "sources": f.tpls, "context": f.context, "call": call, "engine": got, "expected": want,
+                "all_wrong_answers": wrong.iter().filter(|w| w.0 == *i).map(|w| (w.1.clone(), w.2.clone(), w.3.clone())).collect::<Vec<_>>(),
+                "rerun": "harness/target/release/c04 --replay <this file>",
+            }),
+        );
     }
     report.rule = "an inheritance chain of at least two templates in which some non-root level defines a block (override, super() or a block introduced by a child); distinct by (chain length, per level and block: absent / defined / defined with super(), nesting forest, filter-section placement)".into();
     report.write(&out_path());
